@@ -18,15 +18,16 @@ import (
 type Scenario struct {
 	Name           string        `json:"name"`
 	Cfg            hdr.Config    `json:"config"`
-	N              int           `json:"max_submissions"`        // bound on submissions of new headers
-	M              int           `json:"max_maintenance"`        // bound on maintenance operations
-	Maint          []hdr.Op      `json:"maintenance_ops"`        // maintenance alphabet
-	Subs           int           `json:"max_subscribers"`        // bound on subscribe operations
-	Marks          int           `json:"max_marks"`              // bound on mark/unmark operations
-	Slots          []string      `json:"slots"`                  // child slots offered per parent (default a,b,H)
-	Attach         []int         `json:"attach,omitempty"`       // base worlds: base heights (relative to base tip, <= 0) where forks may start
-	Probes         bool          `json:"probes"`                 // add duplicate / orphan submissions as operations
-	Grows          int           `json:"max_grow_ops,omitempty"` // bound on "grow" operations (extend the best chain by GrowBy headers at once)
+	N              int           `json:"max_submissions"`          // bound on submissions of new headers
+	M              int           `json:"max_maintenance"`          // bound on maintenance operations
+	Maint          []hdr.Op      `json:"maintenance_ops"`          // maintenance alphabet
+	Subs           int           `json:"max_subscribers"`          // bound on subscribe operations
+	Marks          int           `json:"max_marks"`                // bound on mark/unmark operations
+	Slots          []string      `json:"slots"`                    // child slots offered per parent (default a,b,H)
+	Lag            int           `json:"lagging_growth,omitempty"` // offer one growlag(Lag) operation on the genesis-only chain
+	Attach         []int         `json:"attach,omitempty"`         // base worlds: base heights (relative to base tip, <= 0) where forks may start
+	Probes         bool          `json:"probes"`                   // add duplicate / orphan submissions as operations
+	Grows          int           `json:"max_grow_ops,omitempty"`   // bound on "grow" operations (extend the best chain by GrowBy headers at once)
 	GrowBy         int           `json:"grow_by,omitempty"`
 	GrowSides      int           `json:"max_growside_ops,omitempty"` // bound on "growside" operations (extend the heaviest side leaf by GrowSideBy double-work headers)
 	GrowSideBy     int           `json:"growside_by,omitempty"`
@@ -180,6 +181,12 @@ func (sc *Scenario) enabled(w *hdr.World, hist []hdr.Op) []hdr.Op {
 	}
 	if countOps(hist, "growside") < sc.GrowSides {
 		ops = append(ops, hdr.Op{K: "growside", D: sc.GrowSideBy})
+	}
+	if sc.Lag > 0 && countOps(hist, "growlag", "fullrace") == 0 && countOps(hist, "sub", "grow", "growside") == 0 {
+		ops = append(ops, hdr.Op{K: "growlag", D: sc.Lag})
+		if countOps(hist, "subscribe") > 0 {
+			ops = append(ops, hdr.Op{K: "fullrace"})
+		}
 	}
 	if countOps(hist, "subscribe") < sc.Subs {
 		ops = append(ops, hdr.Op{K: "subscribe"})
